@@ -14,6 +14,7 @@ import Optyx.Lemmas.JacCompile
 import Optyx.Props.C02
 import Optyx.Drive.Jac
 import Optyx.Props.Closures
+import Optyx.Props.JacRowTie
 
 namespace Optyx.Props.C03
 open Optyx Optyx.Py Optyx.Py.Jac NumAlg
@@ -32,6 +33,18 @@ theorem jacRow_sound (ρ : String → ℝ) (σ : Nat → ℝ) (V : List Var) (e 
   refine ⟨hok.length, fun j hj hr => ?_⟩
   obtain ⟨_, hd⟩ := hok.get ρ σ j hj
   exact hd
+
+/-- `jacRow_sound` for **whatever function the current source defines**: `J` is any function satisfying the equations
+    harness/py2lean.py reads off the `jacobian_row` methods of all node classes on this run (`Generated.jacRowStepG`:
+    `BinaryOp`'s method calls `J` on its operands, the eight vector / matrix methods are translated whole, every other class
+    inherits `return None`).  By `JacRowTie.step_unique` the only such function is the model `Py.jacRow V`. -/
+theorem jacRow_sound_of_source_equations (V : List Var) (J : Expr → Option (List Expr))
+    (hJ : ∀ e, J e = Generated.jacRowStepG V J e)
+    (ρ : String → ℝ) (σ : Nat → ℝ) (e : Expr) (hwf : WF e) (row : List Expr) (h : J e = some row) :
+    row.length = V.length ∧
+    ∀ j (hj : j < V.length) (hr : j < row.length), denote ρ σ row[j] = denote ρ σ (grad V[j] e) := by
+  rw [JacRowTie.step_unique V J hJ e] at h
+  exact jacRow_sound ρ σ V e hwf row h
 
 /-- the length part alone (what `compile_jacobian` relies on when it indexes `J[i][j]`) -/
 theorem jacRow_length (V : List Var) (e : Expr) (hwf : WF e) (row : List Expr)
